@@ -29,6 +29,50 @@ ASSUMPTIONS = [
 ]
 
 
+MUTANTS = [
+    ("uniq skips deepest level", "AegeanTools/regions.py",
+     "        pd = []\n        for d in range(1, self.maxdepth+1):",
+     "        pd = []\n        for d in range(1, self.maxdepth):", "C12-R1"),
+    ("uniq skips level 1", "AegeanTools/regions.py",
+     "        pd = []\n        for d in range(1, self.maxdepth+1):",
+     "        pd = []\n        for d in range(2, self.maxdepth+1):", "C12-R1"),
+    ("reg skips deepest level", "AegeanTools/regions.py",
+     "            for d in range(1, self.maxdepth+1):\n                for p "
+     "in self.pixeldict[d]:\n                    line =",
+     "            for d in range(1, self.maxdepth):\n                for p "
+     "in self.pixeldict[d]:\n                    line =", "C12-R1"),
+    ("nuniq wrong order", "AegeanTools/regions.py",
+     "map(lambda x: int(4**(d+1) + x), self.pixeldict[d])",
+     "map(lambda x: int(4**d + x), self.pixeldict[d])", "C12-R2"),
+    ("nuniq float", "AegeanTools/regions.py",
+     "map(lambda x: int(4**(d+1) + x), self.pixeldict[d])",
+     "map(lambda x: 4**(d+2)/4 + x, self.pixeldict[d])", "C12-R2"),
+    ("mocorder constant", "AegeanTools/regions.py",
+     "            self.maxdepth, 'MOC resolution (best order)')",
+     "            11, 'MOC resolution (best order)')", "C12-R3"),
+    ("32-bit column", "AegeanTools/regions.py",
+     "array=self._uniq(), format='1K')", "array=self._uniq(), format='1J')",
+     "C12-R3"),
+    ("ring boundaries", "AegeanTools/regions.py",
+     "zip(*hp.boundaries(2**d, int(p), step=1, nest=True)))",
+     "zip(*hp.boundaries(2**d, int(p), step=1)))", "C12-R4"),
+    ("boundaries at maxdepth", "AegeanTools/regions.py",
+     "zip(*hp.boundaries(2**d, int(p), step=1, nest=True)))",
+     "zip(*hp.boundaries(2**self.maxdepth, int(p), step=1, nest=True)))",
+     "C12-R4"),
+    ("getstate drops cache", "AegeanTools/regions.py",
+     "    def __repr__(self):\n        r = \"Region with",
+     "    def __getstate__(self):\n        return {'maxdepth': self.maxdepth}"
+     "\n\n    def __repr__(self):\n        r = \"Region with", "C12-R5"),
+]
+TWINS = [
+    ("nuniq spelled 4*4**d", "AegeanTools/regions.py",
+     "map(lambda x: int(4**(d+1) + x), self.pixeldict[d])",
+     "map(lambda x: int(4 * 4**d + x), self.pixeldict[d])"),
+]
+
+
+
 def run(ctx):
     prog = ctx.prog
     ci = region_methods(prog)
